@@ -136,6 +136,10 @@ func C12(ctx *core.Ctx) int {
 	for _, p := range acceptVariants() {
 		accepts = append(accepts, struct{ name, text, kind string }{p.Name, p.Text(), "documented construct: " + p.Notes[0]})
 	}
+	// the targeted codec programs of C04-C06 (length-of, match and checksum shapes; boundary keys) are well-formed too
+	for _, p := range append(append(lengthPrograms(), matchPrograms()...), checksumPrograms()...) {
+		accepts = append(accepts, struct{ name, text, kind string }{p.Name, p.Text(), "base program " + familyOf(p.Name)})
+	}
 	core.Parallel(len(accepts), func(i int) {
 		c12Accept(ctx, bin, accepts[i].name, accepts[i].text, accepts[i].kind)
 		atomic.AddInt64(&evals, 1)
